@@ -164,17 +164,25 @@ func (w *world) serve(q request) (log []seen, escaped any) {
 }
 
 // reference: the same request on a fresh Mux with the same routes
-var refCache = map[string][]seen{}
+type refT struct {
+	log []seen
+	esc any
+}
 
-func reference(q request, late bool) []seen {
+var refCache = map[string]refT{}
+
+func reference(q request, late bool) ([]seen, any) {
 	k := fmt.Sprintf("%v|%v", q, late)
 	if r, ok := refCache[k]; ok {
-		return r
+		return r.log, r.esc
 	}
 	fw := newWorld(late)
-	log, _ := fw.serve(q)
-	refCache[k] = log
-	return log
+	log, esc := fw.serve(q)
+	if esc != nil && strings.Contains(fmt.Sprint(esc), escapingPanic) {
+		esc = nil // the handler's own panic
+	}
+	refCache[k] = refT{log, esc}
+	return log, esc
 }
 
 // mask hides the per-Mux random prefix of a request id (messages must be reproducible)
@@ -195,10 +203,16 @@ func counterPart(id string) string {
 
 // compare returns "" when the observations of a request equal those on a fresh Mux.
 func compare(q request, late bool, log []seen, escaped any) string {
-	if escaped != nil && !(escaped == escapingPanic && strings.HasPrefix(q.path, "/u/escape/")) {
-		return fmt.Sprintf("C05: ServeHTTP(%s %s) panicked: %v", q.method, q.path, escaped)
+	ref, refEscaped := reference(q, late)
+	own := escaped != nil && strings.Contains(fmt.Sprint(escaped), escapingPanic) && strings.HasPrefix(q.path, "/u/escape/")
+	if escaped != nil && !own && refEscaped == nil {
+		// on a fresh Mux the same request is served without a panic: what went before leaked into it
+		// (a request that panics on a fresh Mux as well is C04's subject, not this property's)
+		return fmt.Sprintf("C05: ServeHTTP(%s %s) panicked although it does not on a fresh Mux with the same routes: %v", q.method, q.path, escaped)
 	}
-	ref := reference(q, late)
+	if escaped != nil && !own {
+		return ""
+	}
 	if len(log) != len(ref) {
 		return fmt.Sprintf("C05: request %s %s made %d observations, on a fresh Mux %d", q.method, q.path, len(log), len(ref))
 	}
@@ -256,7 +270,11 @@ func canon(s *sys) string {
 	if p := poolOf(s.w.mux); p != nil {
 		var items []string
 		for _, it := range p.Items() {
-			st := it.(*httpd.Store)
+			st, isStore := it.(*httpd.Store)
+			if !isStore {
+				items = append(items, vstate.Dump(it)) // something else is pooled: its reflective dump stands for it
+				continue
+			}
 			lenID := -1 // the private id field, where the Store has one of that name
 			if idv := field(reflect.ValueOf(st).Elem(), "id"); idv.IsValid() && idv.Kind() == reflect.String {
 				lenID = idv.Len()
